@@ -32,6 +32,7 @@ import (
 	"sort"
 	"strconv"
 	"strings"
+	"time"
 	"syscall"
 
 	"github.com/hydraide/hydraide/app/core/hydra/swamp/beacon"
@@ -82,6 +83,15 @@ func c02ParseContent(s string) string {
 		}
 	}
 	return "?"
+}
+
+// c02ItemTimes splits `item*N` into the item and N (1 without a suffix).
+func c02ItemTimes(it string) (string, int) {
+	if i := strings.IndexByte(it, '*'); i >= 0 {
+		n, _ := strconv.Atoi(it[i+1:])
+		return it[:i], n
+	}
+	return it, 1
 }
 
 func c02MakeTreasure(item string) (treasure.Treasure, string) {
@@ -234,6 +244,7 @@ func c02WorkerMain(script string) {
 		}
 		res := "ok"
 		c02Mark(n)
+		tCmd := time.Now()
 		func() {
 			defer func() {
 				if r := recover(); r != nil {
@@ -255,8 +266,12 @@ func c02WorkerMain(script string) {
 				var batch []treasure.Treasure
 				var sizes []string
 				for _, it := range strings.Split(f[1], ",") {
+					// `item*N`: N copies of the item (one size is reported for all of them)
+					it, times := c02ItemTimes(it)
 					t, sz := c02MakeTreasure(it)
-					batch = append(batch, t)
+					for ; times > 0; times-- {
+						batch = append(batch, t) // the same treasure handed over again: the same entry again
+					}
 					sizes = append(sizes, sz)
 				}
 				ch.Write(batch)
@@ -332,6 +347,9 @@ func c02WorkerMain(script string) {
 			}
 		}()
 		// results are flushed at the very end: the only write syscalls in between are storage writes
+		if os.Getenv("HX_TIMING") == "1" {
+			fmt.Fprintln(os.Stderr, "cmd", f[0], time.Since(tCmd))
+		}
 		fmt.Fprintf(out, "r %d %s\n", n, res)
 		n++
 	}
@@ -634,6 +652,10 @@ func c02RunTraced(script []string, extraStrace []string) (results []string, sys 
 	tp := filepath.Join(tmp, "trace")
 	self, _ := os.Executable()
 	args := []string{"-f", "-y", "-xx", "-s", "100000000", "-o", tp, "-e", c02TraceSet}
+	if os.Getenv("HX_TIMING") == "1" {
+		t0 := time.Now()
+		defer func() { fmt.Fprintln(os.Stderr, "strace run:", time.Since(t0)) }()
+	}
 	args = append(args, extraStrace...)
 	args = append(args, self)
 	cmd := exec.Command("strace", args...)
@@ -690,12 +712,34 @@ func c02EntsOf(hdr, pay []byte) (string, string, bool) {
 	if err := bh.Deserialize(hdr); err != nil {
 		return "", "", false
 	}
-	blk, err := v2.ParseBlock(&bh, pay)
-	if err != nil {
-		return "", "", false
+	var entries []v2.Entry
+	if blk, err := v2.ParseBlock(&bh, pay); err == nil {
+		entries = blk.Entries
+	} else {
+		// a block the reader rejects although its payload is intact (e.g. a wrapped EntryCount):
+		// what the payload holds, whatever the count field says
+		if !v2.ValidateChecksum(pay, bh.Checksum) {
+			return "", "", false
+		}
+		raw, derr := v2.DecompressBlock(pay)
+		if derr != nil || uint32(len(raw)) != bh.UncompressedSize {
+			return "", "", false
+		}
+		for off := 0; off < len(raw); {
+			var e v2.Entry
+			n, eerr := e.Deserialize(raw[off:])
+			if eerr != nil || n <= 0 {
+				return "", "", false
+			}
+			entries = append(entries, e)
+			off += n
+		}
+		if len(entries) == 0 {
+			return "", "", false
+		}
 	}
 	var parts, sizes []string
-	for _, e := range blk.Entries {
+	for _, e := range entries {
 		k := strings.TrimPrefix(e.Key, "k")
 		switch e.Operation {
 		case v2.OpDelete:
@@ -1364,6 +1408,7 @@ func c02EmitCase(w *bufio.Writer, co c02CaseOut, imgFor func(ki int, c c02CmdOut
 		start := len(ops)
 		if f[0] == "w" {
 			for _, it := range strings.Split(f[1], ",") {
+				it, _ = c02ItemTimes(it)
 				p := strings.Split(it, ":")
 				k, _ := strconv.Atoi(p[1])
 				if p[0] == "p" {
@@ -1423,15 +1468,20 @@ func c02EmitCase(w *bufio.Writer, co c02CaseOut, imgFor func(ki int, c c02CmdOut
 				sizes = strings.Split(c.Res[i+3:], ",")
 			}
 			for i, it := range strings.Split(f[1], ",") {
+				it, times := c02ItemTimes(it)
 				p := strings.Split(it, ":")
 				sz := "0"
 				if i < len(sizes) {
 					sz = sizes[i]
 				}
+				suffix := ""
+				if times != 1 {
+					suffix = "*" + strconv.Itoa(times)
+				}
 				if p[0] == "p" {
-					items = append(items, "p."+p[1]+"."+p[2]+"."+sz)
+					items = append(items, "p."+p[1]+"."+p[2]+"."+sz+suffix)
 				} else {
-					items = append(items, "d."+p[1]+"."+sz)
+					items = append(items, "d."+p[1]+"."+sz+suffix)
 				}
 			}
 			fmt.Fprintln(w, "act w "+strings.Join(items, ","))
